@@ -867,13 +867,22 @@ impl Builder {
             25 => {
                 // selfdestruct / suicide
                 let callee = self.var(self.rng.ps(&["selfdestruct", "selfdestruct", "suicide"]));
-                let arg = match self.rng.below(4) {
+                let arg = match self.rng.below(6) {
                     0 => self.msg_sender(),
                     1 => {
                         let s = self.msg_sender();
                         self.cast("payable", s)
                     }
                     2 => self.var("owner_"),
+                    3 | 4 => {
+                        // the sender only as operand of nested conversions through an integer / fixed-bytes type
+                        let s = self.msg_sender();
+                        let inner = self.rng.ps(&["uint160", "bytes20", "uint160", "uint256"]);
+                        let c1 = self.cast(inner, s);
+                        let c1 = if inner == "uint256" { c1 } else if self.rng.chance(1, 3) { self.cast("uint256", c1) } else { c1 };
+                        let c2 = if inner == "bytes20" { self.cast("address", c1) } else { let u = self.cast("uint160", c1); self.cast("address", u) };
+                        self.cast("payable", c2)
+                    }
                     _ => {
                         let o = self.var("owner_");
                         self.cast("payable", o)
@@ -940,7 +949,14 @@ impl Builder {
                 self.fn_names.push(n.clone());
                 Some(n)
             }
-            FnKind::Modifier => Some(if self.rng.chance(1, 2) { self.fresh("onlyRole") } else { self.fresh("md") }),
+            FnKind::Modifier => Some(if self.rng.chance(1, 4) {
+                // names that functions of any contract in the file invoke
+                self.rng.ps(&["nonReentrant", "whenNotPaused", "guarded", "lock", "auth"]).to_string()
+            } else if self.rng.chance(1, 2) {
+                self.fresh("onlyRole")
+            } else {
+                self.fresh("md")
+            }),
             _ => None,
         };
         let np = match kind {
@@ -1016,7 +1032,7 @@ impl Builder {
             // modifier invocations, with and without arguments
             for _ in 0..self.rng.below(3) {
                 if self.rng.chance(1, 2) {
-                    let mname = self.rng.ps(&["onlyOwner", "nonReentrant", "whenNotPaused", "onlyRole", "guarded", "lock", "ownerOnly"]).to_string();
+                    let mname = self.rng.ps(&["onlyOwner", "nonReentrant", "whenNotPaused", "onlyRole", "guarded", "lock", "ownerOnly", "auth"]).to_string();
                     let args = if self.rng.chance(1, 2) {
                         let n = self.rng.below(3);
                         Some(
@@ -1108,7 +1124,7 @@ impl Builder {
 
     pub fn struct_def(&mut self) -> StructDef {
         let id = self.id();
-        let name = self.fresh("St");
+        let name = if self.rng.chance(1, 4) { "MyStruct".to_string() } else { self.fresh("St") };
         let n = self.rng.range(0, 6);
         let fields = (0..n)
             .map(|_| {
@@ -1126,7 +1142,7 @@ impl Builder {
             0 => Part::Struct(self.struct_def()),
             1 => {
                 let id = self.id();
-                let n = self.fresh("En");
+                let n = if self.rng.chance(1, 4) { "Kind".to_string() } else { self.fresh("En") };
                 let k = self.rng.range(1, 4);
                 Part::Enum(id, n, (0..k).map(|i| format!("V{}", i)).collect())
             }
